@@ -224,6 +224,12 @@ void setup(Handler& ah, Dest& d, int cfg, int part /* 0 = all, 1/2 = halves for 
       // an argument with value mode 'command': the rest of the command line is its value
       ah.addArgument("x,exec", DEST_VAR(d.k), "command")->setValueMode(Handler::ValueMode::command);
       ah.addArgument("f,flag", DEST_VAR(d.f), "flag"); ah.addArgument("n,number", DEST_VAR(d.n), "number"); ah.addArgument("s,name", DEST_VAR(d.s), "name");
+   } else if (cfg == 18) {
+      // exact / range cardinalities, a flag whose variable is initially set, deprecated and replaced arguments, value+constant pair
+      if (in(1)) { ah.addArgument("c,count", DEST_VAR(d.c), "exactly two")->setCardinality(cardinality_exact(2)); ah.addArgument("v,values", DEST_VAR(d.v), "two or three")->setCardinality(cardinality_range(2, 3));
+                   d.g = true; ah.addArgument("u,unset", DEST_VAR(d.g), "clears the flag"); }
+      if (in(2)) { ah.addArgument("d,dep", DEST_VAR(d.m), "deprecated")->setIsDeprecated(); ah.addArgument("r,repl", DEST_VAR(d.l), "replaced")->setReplacedBy("--new");
+                   ah.addArgument("p,pair", DEST_PAIR(d.s, d.u, 7), "value and constant"); ah.addArgument("f,flag", DEST_VAR(d.f), "flag"); }
    } else if (cfg == 12) {
       // value constraints over three arguments
       if (in(1)) { ah.addArgument("x", DEST_VAR(d.n), "x"); ah.addArgument("y", DEST_VAR(d.m), "y"); ah.addArgument("z", DEST_VAR(d.l), "z"); ah.addConstraint(differ("x;y;z")); }
